@@ -25,14 +25,25 @@ class StageFailure(Exception):
     """Injected failure of a stage (C17)."""
 
 
+class _Meta(OrderedDict):
+    def __init__(self, d, log):
+        super().__init__(d)
+        self._log = log
+
+    def __setitem__(self, k, v):
+        super().__setitem__(k, v)
+        if getattr(self, "_log", None) is not None:
+            self._log.append(("meta", k))
+
+
 class RecTable:
     """Recording stand-in for astropy.table.Table (columns, meta, write snapshots)."""
 
     def __init__(self, meta=None, fs=None, log=None):
-        self.meta = OrderedDict(meta or {})
         self.cols = OrderedDict()
         self.fs = fs if fs is not None else {}
         self.log = log if log is not None else []
+        self.meta = _Meta(meta or {}, self.log)
 
     def add_columns(self, cols, indexes=None, names=None, copy=True, rename_duplicate=False):
         cols = list(cols)
@@ -48,8 +59,7 @@ class RecTable:
             if self.cols and len(c) != len(self):
                 raise ValueError("Inconsistent data column lengths")
             self.cols[n] = c.copy()  # astropy copies column data
-            if not self.cols:
-                pass
+        self.log.append(("add", tuple(names)))
 
     def __len__(self):
         for c in self.cols.values():
@@ -64,7 +74,7 @@ class RecTable:
         return self.cols[k]
 
     def snapshot(self):
-        return {"cols": OrderedDict((k, v.copy()) for k, v in self.cols.items()), "meta": OrderedDict(self.meta)}
+        return {"cols": OrderedDict((k, v.copy()) for k, v in self.cols.items()), "meta": OrderedDict(self.meta.items())}
 
     def write(self, path, format=None, overwrite=False):
         if path is None:
@@ -89,6 +99,7 @@ class Recorder:
         self.cfg = None
         self.draws_by_stage = []
         self.eas_args = None
+        self.failed_at = None
 
 
 def make_config(mode="Diffuse", spectrum="mono", cloud="none", optical=True, radio=True, thrown=2, symbolic=True):
@@ -126,7 +137,8 @@ def make_config(mode="Diffuse", spectrum="mono", cloud="none", optical=True, rad
 
 
 def run_compute(mode="Diffuse", optical=True, radio=True, survivors=None, thrown=2, spectrum="mono", cloud="none",
-                write_stages=False, output_file="out.fits", fail_stage=None, keep=None, real_mcintegral=False, cfg=None, opaque=True):
+                write_stages=False, output_file="out.fits", fail_stage=None, keep=None, real_mcintegral=False, cfg=None, opaque=True,
+                fail_symbolic=False):
     """Execute the real compute() once on the current path. `keep`: None -> symbolic
     survival mask (forks), or a list of bools. `fail_stage`: name of the stage stub that
     raises StageFailure.  Returns a Recorder."""
@@ -139,9 +151,13 @@ def run_compute(mode="Diffuse", optical=True, radio=True, survivors=None, thrown
     rec.cfg = cfg
 
     def stage(name):
+        i = len(rec.stage_calls)
         rec.stage_calls.append(name)
         rec.draws_by_stage.append((name, C.ndraw))
         if fail_stage == name:
+            raise StageFailure(name)
+        if fail_symbolic and C.decide(z3.Real("fail_at") == i):
+            rec.failed_at = (i, name)
             raise StageFailure(name)
 
     def sym(prefix, idx):
